@@ -571,7 +571,10 @@ Theorem call_result c s ev data pns r tbl fr p enc pns' :
   ns_or_default pns' = ns ->
   rs (api_call c ev data pns (Some r) tbl) s = Ok (shape_result r) /\
   filter observable (ef (api_call c ev data pns (Some r) tbl) s) = map Sent fr /\
-  outstanding (callbacks (st (api_call c ev data pns (Some r) tbl) s)) ns (Some (Z.of_N id)) = None.
+  outstanding (callbacks (st (api_call c ev data pns (Some r) tbl) s)) ns (Some (Z.of_N id)) = None /\
+  st (api_call c ev data pns (Some r) tbl) s
+  = with_callbacks (st (generate_ack_id ns CbInt) s)
+                   (drop_callback (callbacks (st (generate_ack_id ns CbInt) s)) ns id).
 Proof.
   intros Hinv Hns Hsend Hbin ns id Hfr Hp Henc Hdec Hpns.
   destruct (unique_emit ev data pns CbInt s fr Hinv Hns Hfr) as (Hemit & _ & Hout). fold ns id in Hemit, Hout.
@@ -605,7 +608,7 @@ Proof.
       rewrite N2Z.id, str_eqb_refl, N.eqb_refl. reflexivity. }
     unfold st, ef, rs. rewrite Ht. reflexivity. }
   unfold rs, ef, st. rewrite Hrun. cbn [fst snd].
-  split; [reflexivity|]. split.
+  split; [reflexivity|]. split; [|split; [|unfold s2; rewrite N2Z.id; reflexivity]].
   - rewrite filter_app. cbn [filter observable app]. rewrite app_nil_r.
     clear. induction fr as [|x l IH]; [reflexivity|]. cbn [map filter observable]. f_equal. exact IH.
   - destruct (at_most_once c s1 pns' (Z.of_N id) (PList r) CbInt Hinv1) as (Hnone & _).
